@@ -21,6 +21,7 @@ CONSTANTS
   SrcCaps <- MCSrcCaps
   DSizes <- MCDSizes
   Paths <- MCPaths
+  IdleSecs <- MCIdleSecs
   MaxW = ${MaxW}
   MaxR = ${MaxR}
   Writers = ${Writers}
